@@ -18,6 +18,10 @@ MANUAL = {
  "C16b-m2": ["wrapper_caps_two_sessions"], "C02b-m2": ["parsed_identity__ViewerFrozenMessage__lazy"],
  "C03b-m1": ["long_runs_roundtrip__tail0"], "C03b-m2": ["cap_whole"], "C08b-m1": ["flag_switch__U8", "flag_switch__S16"],
  "C12b-m1": ["binary_roundtrip__map", "binary_roundtrip__nested"], "C13b-m2": ["decoders_agree__flags_0a0__prim"],
+ "C16c-m2": ["seed_adjacent_proxy_caps"], "C06c-m2": ["pre_session_datagrams"], "C02c-m2": ["zerocoded_overcap_forwardable"],
+ "C12c-m1": ["binary_roundtrip__leaf"],
+ "C08c-m1": ["typed_bytes__U8", "typed_bytes__S16"], "C08c-m2": ["limit_lengths__StrFixed"],
+ "C02c-m1": ["@C03", "long_runs_roundtrip__tail0"],
  "C18-m2": ["val_matches_matrix__startswith__*", "val_matches_matrix__endswith__*"],
  "regress-C18-inapplicable": ["val_matches_matrix__startswith__*", "val_matches_matrix__contains__*"],
  "C09-m2": ["payload_mut_TextureEntrySubfieldSerializer"], "C09-m1": ["payload_mut_PSBlockSerializer"],
@@ -26,7 +30,7 @@ MANUAL = {
  "regress-C07-queued-dropped": ["two_addons__first_0", "two_addons__first_3", "handler_isolation__session_sub_7"],
 }
 NOT_STRENGTHENED = {"C18-m2", "regress-C18-inapplicable", "C09-m1", "regress-C12-quat-uri", "regress-C16-proxy-cap", "regress-C05-packetack-leak", "regress-C19-region-dedupe", "regress-C07-queued-dropped"}
-STRENGTHENED = {"C03b-m1", "C03b-m2", "C08b-m1", "C12b-m1", "C13b-m2", "C06b-m1", "C05b-m2", "C16b-m1", "C16b-m2", "C02b-m2", "C01-m1", "C01-m2", "C10-m2", "C02-m2", "C02-m3", "C05-m1", "C06-m3", "C07-m1", "C07-m3", "C15-m3", "C16-m1", "C16-m2",
+STRENGTHENED = {"C08c-m1", "C08c-m2", "C16c-m2", "C06c-m2", "C02c-m2", "C12c-m1", "C03b-m1", "C03b-m2", "C08b-m1", "C12b-m1", "C13b-m2", "C06b-m1", "C05b-m2", "C16b-m1", "C16b-m2", "C02b-m2", "C01-m1", "C01-m2", "C10-m2", "C02-m2", "C02-m3", "C05-m1", "C06-m3", "C07-m1", "C07-m3", "C15-m3", "C16-m1", "C16-m2",
                 "C16-m3", "C17-m2", "C17-m3", "C19-m2", "C12-m1", "C13-m1", "C20-m3", "C09-m2"}
 head = subprocess.run("git -C /repo rev-parse HEAD", shell=True, capture_output=True, text=True).stdout.strip()
 
@@ -52,6 +56,10 @@ def run(args):
     meta = json.load(open(f"{ROOT}/seeded/{seed}/meta.json"))
     prop = meta["property"] if isinstance(meta["property"], str) else meta["property"][0]
     cands = candidates(seed)
+    other = None
+    if cands and cands[0].startswith("@"):
+        other, cands = cands[0][1:], cands[1:]
+        prop = other
     if not cands:
         return seed, {"result": "MISSED (no obligation of the quick tier refuted it in the last full run)"}
     r = subprocess.run(f"git -C {wt} apply {ROOT}/seeded/{seed}/patch.diff", shell=True, capture_output=True, text=True)
@@ -70,6 +78,8 @@ def run(args):
     res = {"result": "CAUGHT" if (r.returncode == 1 and caught) else f"NOT CAUGHT by {cands} (exit {r.returncode})", "caught_by": caught}
     if seed in STRENGTHENED:
         res["note"] = "missed at first; check strengthened"
+    if other:
+        res["note"] = f"not caught by its own property's check; caught by the {other} check (the change is in code {other} owns)"
     return seed, res
 
 
